@@ -104,6 +104,7 @@ type Env struct {
 	OnRound               func() // called after every completed round
 	Persisted             int // States[Persisted] is what the lower level holds
 	Rounds                int // completed ok rounds
+	DataRounds            int // completed rounds that carried batches
 	RoundErrs             int
 	PersistErrFatal       bool // a round failing without injected fault is a violation
 	IgnoreRoundErr        bool
@@ -307,7 +308,7 @@ func (e *Env) openWith(cfg Config, controlled bool) {
 		s, c, err := moss.OpenStoreCollection(e.Dir, so, po)
 		e.FS.HarnessEnd()
 		if err != nil {
-			e.Failf("OpenStoreCollection(%s): %v [dir: %s]", cfg.String(), err, dirListing(e.Dir))
+			e.Failf("OpenStoreCollection(%s): %v [dir: %s] [%s]", cfg.String(), err, dirListing(e.Dir), diagnoseDir(e.Dir))
 		}
 		e.Store, e.Coll = s, c
 	default:
@@ -513,6 +514,7 @@ func (e *Env) roundOK() {
 	e.pState = pIdle
 	if n := len(e.base); n > 0 {
 		e.Persisted = e.base[n-1]
+		e.DataRounds++
 	}
 	e.lastBase = e.base
 	defer func() {
@@ -783,4 +785,33 @@ func Universe(p *Program) [][]byte {
 	}
 	sort.Slice(out, func(i, j int) bool { return bytes.Compare(out[i], out[j]) < 0 })
 	return out
+}
+
+// diagnoseDir tries ReadFooter on every data file and reports the errors.
+func diagnoseDir(dir string) string {
+	var out []string
+	for _, name := range dataFiles(dir) {
+		f, err := os.OpenFile(filepath.Join(dir, name), os.O_RDONLY, 0)
+		if err != nil {
+			out = append(out, name+": "+err.Error())
+			continue
+		}
+		so := moss.StoreOptions{}
+		func() {
+			defer func() {
+				if r := recover(); r != nil {
+					out = append(out, fmt.Sprintf("%s: ReadFooter panics: %v", name, r))
+				}
+			}()
+			ft, err := moss.ReadFooter(&so, f)
+			if err != nil {
+				out = append(out, fmt.Sprintf("%s: ReadFooter: %v", name, err))
+				f.Close()
+				return
+			}
+			out = append(out, name+": ReadFooter ok")
+			ft.Close()
+		}()
+	}
+	return strings.Join(out, "; ")
 }
